@@ -447,6 +447,13 @@ func (w *Proxy) retriable(up *peers.UpRec) (bool, string) {
 		// half-close took down: a connection-termination retry is allowed if retry_on
 		return p.RetryOn, "its connection was terminated but retry_on is off"
 	}
+	for _, u := range w.ups {
+		if u.Conn != nil && u.Conn.ID == up.ConnID && u.Wedged {
+			// a neighbour's half frame wedged this (multiplexed) connection: MOSN's keep-alive gives it up at some
+			// point, with whatever was still on its way
+			return p.RetryOn, "its connection was given up (a stalled frame) but retry_on is off"
+		}
+	}
 	switch up.Act.Kind {
 	case "reply", "", "twice", "unknown_id", "stale_id", "reply_close", "reply_connclose", "goaway_reply":
 		if len(up.Sent) == 0 || w.connReset(up.ConnID) {
@@ -490,6 +497,14 @@ func (w *Proxy) checkC17Retry(r *peers.ReqRec) {
 	}
 	if len(r.Upstream) > 1+budget {
 		s.Violate("C17", "retry_budget_exceeded", "req#%d reached upstreams %d times, budget 1+%d (num_retries=%d)", r.Idx, len(r.Upstream), budget, p.NumRetries)
+	}
+	for i := range ups {
+		if ups[i] != r.Upstream[i] {
+			// the order in which MOSN wrote the attempts differs from the order in which they arrived (latencies
+			// per connection): which attempt followed which is not certain enough to judge the condition
+			w.Stats["c17_attempt_order_uncertain"]++
+			return
+		}
 	}
 	for i := 0; i+1 < len(ups); i++ {
 		if ok, why := w.retriable(ups[i]); !ok {
